@@ -190,6 +190,38 @@ Definition aht_step (t : aht) (o : aop) : aht :=
 
 Definition aht_run (ops : list aop) : aht := fold_left aht_step ops aht_empty.
 
+(* ---- Close + Open (OpenWith): the sizes are RE-DERIVED from the commit-log file: size = number of
+   12-byte entries the file holds, dLogSize = nodesUpto(size).  The commit log is never truncated
+   (ResetSize only moves the write offset, see C17), so the file holds `centries` = the LARGEST size
+   ever synced; the payload and digest files are checked to be long enough. ---- *)
+Definition ECorruptedData : N := 14.
+Definition reopen_at (t : aht) (centries : N) : res aht :=
+  if lenN (plog t) <? centries then Err ECorruptedData else
+  if lenN (dlog t) <? nodes_upto centries then Err ECorruptedDigests else
+  Ok (mkAht (plog t) (dlog t) centries (nodes_upto centries)).
+
+(* histories with restarts; the second component is the number of commit-log entries on disk *)
+Inductive aop2 := A2 (d : bytes) | R2 (k : N) | Reopen2.
+
+Definition aht_step2 (s : aht * N) (o : aop2) : aht * N :=
+  let '(t, ce) := s in
+  match o with
+  | A2 d => let t' := aht_step t (OAppend d) in (t', N.max ce (size t'))
+  | R2 k => (aht_step t (OReset k), ce)
+  | Reopen2 => match reopen_at t ce with Ok t' => (t', ce) | _ => (t, ce) end
+  end.
+
+Definition aht_run2 (ops : list aop2) : aht * N := fold_left aht_step2 ops (aht_empty, 0).
+
+(* the same history without its restarts *)
+Fixpoint strip2 (ops : list aop2) : list aop :=
+  match ops with
+  | [] => []
+  | A2 d :: r => OAppend d :: strip2 r
+  | R2 k :: r => OReset k :: strip2 r
+  | Reopen2 :: r => strip2 r
+  end.
+
 (* the abstract content: the payloads below the size *)
 Definition payloads (t : aht) : list bytes := firstn (N.to_nat (size t)) (plog t).
 
